@@ -1,5 +1,323 @@
-"""Checks that are not chain-level trace validation (filled in as they are built)."""
-CHECKS = {}
+"""Checks whose specification is a stand-alone module (Node.tla, Upgrades.tla, Replicas.tla, KeyStoreLocks.tla,
+CompKey.tla, SignBytes.tla, Shapes.tla) rather than Panacea.tla."""
+import concurrent.futures as cf
+import json
+import os
+import re
+import shutil
+import subprocess
+import time
+
+import configs
+import tlaval
+import vlib
+from vlib import Inconclusive, log
+
+S = set
+
+
+# ---------------------------------------------------------------------------------------------
+# helpers
+
+def mc_wrapper(workdir, name, base, defs):
+    """writes MC<name>.tla: EXTENDS base plus operator definitions (for constants that a cfg cannot express)"""
+    lines = ['---- MODULE %s ----' % name, 'EXTENDS %s' % base]
+    for k, v in defs.items():
+        lines.append('%s == %s' % (k, v))
+    lines.append('====')
+    open(os.path.join(workdir, name + '.tla'), 'w').write('\n'.join(lines) + '\n')
+
+
+def tla_seq(xs):
+    return '<<' + ', '.join(str(x) for x in xs) + '>>'
+
+
+def tla_strset(xs):
+    return '{' + ', '.join('"%s"' % x for x in sorted(xs)) + '}'
+
+
+def write_raw_cfg(path, lines):
+    open(path, 'w').write('\n'.join(lines) + '\n')
+
+
+def printed_values(out, tag):
+    """all values printed by PrintT(<<"TAG", ...>>) in a TLC output (multi-line aware)"""
+    vals = []
+    for m in re.finditer(r'<<\s*"%s"' % tag, out):
+        i = m.start()
+        depth = 0
+        j = i
+        while j < len(out):
+            if out.startswith('<<', j):
+                depth += 1
+                j += 2
+                continue
+            if out.startswith('>>', j):
+                depth -= 1
+                j += 2
+                if depth == 0:
+                    break
+                continue
+            j += 1
+        try:
+            vals.append(tlaval.to_json(tlaval.parse(out[i:j])))
+        except ValueError:
+            pass
+    return vals
+
+
+def partial_failure_histories(work, seed, n, depth=40, maxlen=14):
+    """histories that contain a multi-message transaction failing AFTER an earlier message of it succeeded (work that is rolled back),
+    with everything before it (so that the state it needs exists) and a few transactions after it. Returns (txs, index of that tx)."""
+    pre = configs.preset('C15', 'quick')
+    simc = dict(pre['sims'][0]['constants'])
+    behs = vlib.simulate(work, simc, n, depth, seed + 77)
+    out = []
+    for steps in behs:
+        dl = [a for a in steps if a.get('name') == 'Deliver']
+        for i, a in enumerate(dl):
+            if a.get('result') == 'fail' and a.get('failIdx', 0) >= 2 and 1 <= i <= maxlen - 3 and len(dl) >= i + 2:
+                out.append(([x['tx'] for x in dl[:i + 4]], i))
+                break
+    return out
+
+
+def sim_histories(work, seed, n, depth=40):
+    """block histories for the node-level checks: the Deliver transactions of simulated Panacea behaviours
+    (mixed custom modules, one- and two-message transactions, succeeding and failing)."""
+    pre = configs.preset('C15', 'quick')
+    simc = dict(pre['sims'][0]['constants'])
+    behs = vlib.simulate(work, simc, n, depth, seed)
+    out = []
+    for steps in behs:
+        txs = [a['tx'] for a in steps if a.get('name') == 'Deliver']
+        if len(txs) >= 3:
+            out.append(txs)
+    return out
+
+
+def shape_history(txs, shape):
+    out, i = [], 0
+    for n in shape:
+        out.append(txs[i:i + n])
+        i += n
+    return out
+
+
+def run_harness_jobs(work, harness, cmd, jobs, nproc=vlib.NCPU, env=None):
+    files = []
+    procs = []
+    for ci, ch in enumerate(vlib.chunks(jobs, nproc)):
+        jf = os.path.join(work, '%s-jobs-%d.ndjson' % (cmd, ci))
+        tf = os.path.join(work, '%s-trace-%d.ndjson' % (cmd, ci))
+        with open(jf, 'w') as f:
+            for j in ch:
+                f.write(json.dumps(j) + '\n')
+        e = dict(os.environ)
+        if env:
+            e.update(env)
+        procs.append((subprocess.Popen([harness, cmd, jf, tf], stdout=subprocess.PIPE, stderr=subprocess.PIPE, text=True, env=e), tf))
+    for p, tf in procs:
+        so, se = p.communicate(timeout=3600)
+        if p.returncode != 0:
+            raise Inconclusive('harness %s failed: %s' % (cmd, se[-3000:]))
+        files.append(tf)
+    return files
+
+
+_rep = re.compile(r'<<"(VIOLATION|DRIFT)", "([^"]*)", "([^"]*)", (\d+), (\d+)>>')
+
+
+def validate_with(work, module, cfgname, trace_files, heap='3g'):
+    def one(tf):
+        rc, out, wall = vlib.run_tlc(work, module, cfgname, workers=1, heap=heap, timeout=3000, env={'TRACE_FILE': tf})
+        return tf, out
+    viol, drift, lines = [], [], 0
+    with cf.ThreadPoolExecutor(min(vlib.NCPU, len(trace_files) or 1)) as ex:
+        for tf, out in ex.map(one, trace_files):
+            lines += sum(1 for _ in open(tf))
+            err = vlib.tlc_failed(out)
+            if err is not None:
+                raise Inconclusive('trace validation (%s) did not complete on %s: %s\n%s' % (module, tf, err, out[-3000:]))
+            for m in _rep.finditer(out):
+                rec = dict(kind=m.group(1), id=m.group(2), run=m.group(3), step=int(m.group(4)), line=int(m.group(5)), file=tf)
+                (viol if rec['kind'] == 'VIOLATION' else drift).append(rec)
+    return viol, drift, lines
+
+
+def conclude(pid, tier, seed, t0, viol, drift, cov, assumptions, jobs_by_id, sig_of=None):
+    mine = [v for v in viol if v['id'] == pid or v['id'].startswith(pid + ':')]
+    others = sorted({v['id'] for v in viol if not (v['id'] == pid or v['id'].startswith(pid + ':'))})
+    known = vlib.load_known()
+    new, hits = [], []
+    for v in mine:
+        sig = v['id'].split(':', 1)[1] if ':' in v['id'] else (sig_of(v) if sig_of else v['run'])
+        k = [f for f in known['findings'] if f.get('status') == 'known' and f['property'] == pid and f['signature'] == sig]
+        (hits if k else new).append((v, sig))
+    for sig in sorted({sig for v, sig in hits}):
+        desc = [f for f in known['findings'] if f['property'] == pid and f['signature'] == sig][0].get('what', '')
+        print('KNOWN-FINDING: property=%s %s: %s (%d occurrences)' % (pid, sig, desc, len([1 for v, s2 in hits if s2 == sig])))
+    for d in drift[:10]:
+        print('DRIFT %s run=%s step=%s' % (d['id'], d['run'], d['step']))
+    if others:
+        print('NOTE: other properties violated on the same traces: %s' % ','.join(others))
+    paths, seen = [], set()
+    for v, sig in new:
+        if v['run'] in seen:
+            continue
+        seen.add(v['run'])
+        paths.append(vlib.save_replay(pid, len(paths), dict(property=pid, signature=sig, first_violating_step=v['step'], job=jobs_by_id.get(v['run']))))
+        if len(paths) >= 5:
+            break
+    cov = dict(cov, conformance_divergences=len(drift), known_findings_seen=len(hits), other_properties_violated=others)
+    vlib.write_evidence(pid, tier, seed, cov, time.time() - t0, len(new), assumptions)
+    if new:
+        for p in paths:
+            print('VIOLATION property=%s replay=%s' % (pid, p))
+        return 1
+    print('OK property=%s tier=%s states=%d traces=%d drift=%d wall=%.0fs' % (pid, tier, cov.get('states', 0), cov.get('traces_validated_against_impl', 0), len(drift), time.time() - t0))
+    return 0
+
+
+# ---------------------------------------------------------------------------------------------
+# C10 restart equivalence / C19 upgrades
+
+def node_schedules(work, shapes, max_crashes, upgrade_ats):
+    mc_wrapper(work, 'MCNode', 'Node', dict(ShapesC='{' + ', '.join(tla_seq(s) for s in shapes) + '}', UpC='{' + ', '.join(str(u) for u in upgrade_ats) + '}'))
+    write_raw_cfg(os.path.join(work, 'node.cfg'), [
+        'SPECIFICATION Spec', 'CONSTANTS', '  BlockShapes <- ShapesC', '  MaxCrashes = %d' % max_crashes, '  UpgradeAts <- UpC',
+        'INVARIANTS CommittedIsTwin ResumeClean PendingIsNextBlock UpgradeAtHeight ScheduleDump', 'CHECK_DEADLOCK FALSE'])
+    rc, out, wall = vlib.run_tlc(work, 'MCNode.tla', 'node.cfg', workers=vlib.NCPU, heap='8g', timeout=1500)
+    err = vlib.tlc_failed(out)
+    if err:
+        raise Inconclusive('Node.tla model checking reported: %s\n%s' % (err, out[-2500:]))
+    gen, dist, depth = vlib.parse_mc_summary(out)
+    scheds = []
+    for v in printed_values(out, 'SCHEDULE'):
+        scheds.append(dict(shape=v[1], upgradeAt=v[2], schedule=v[3]))
+    return scheds, dist, gen
+
+
+def node_check(pid, tier, seed):
+    t0 = time.time()
+    q = tier == 'quick'
+    work = vlib.scratch(pid)
+    try:
+        vlib.copy_spec(work)
+        harness = vlib.build_harness()
+        if pid == 'C10':
+            shapes = [[2, 1], [1, 2, 1]] if q else [[2, 1], [1, 2, 1], [2, 2], [3, 1, 2]]
+            scheds, states, trans = node_schedules(work, shapes, 2, [0])
+        else:
+            shapes = [[1, 1, 1]] if q else [[1, 1, 1], [2, 1, 1], [1, 1, 2, 1]]
+            scheds, states, trans = node_schedules(work, shapes, 2, [2, 3])
+        hist = sim_histories(work, seed, 60 if q else 400)
+        if not hist:
+            raise Inconclusive('no block histories generated')
+        jobs = []
+        per = 1 if q else 4
+        for si, sc in enumerate(scheds):
+            need = sum(sc['shape'])
+            cands = [h for h in hist if len(h) >= need] or hist
+            for r in range(per):
+                txs = cands[(si * per + r + seed) % len(cands)]
+                variants = [sc['schedule']]
+                if sc['upgradeAt']:
+                    # a restart at the height just below the upgrade may find the upgrade-info.json of the halted old binary
+                    hcount, v2 = 0, list(sc['schedule'])
+                    changed = False
+                    for i, name in enumerate(sc['schedule']):
+                        if name == 'Commit':
+                            hcount += 1
+                        if name == 'Restart' and hcount == sc['upgradeAt'] - 1:
+                            v2[i] = 'RestartInfo'
+                            changed = True
+                    if changed:
+                        variants.append(v2)
+                for vi, sch in enumerate(variants):
+                    jobs.append(dict(id='%s-%d-%d-%d' % (pid, si, r, vi), cfg={}, blocks=shape_history(txs, sc['shape']), schedule=sch, upgradeAt=sc['upgradeAt']))
+        if pid == 'C10':
+            # long histories around a rolled-back multi-message transaction; one crash anywhere
+            pf = partial_failure_histories(work, seed, 80 if q else 600)[: (6 if q else 60)]
+            shapes2 = sorted({(i, 1, len(txs) - i - 1) for txs, i in pf})
+            if shapes2:
+                scheds2, st2, tr2 = node_schedules(work, [list(x) for x in shapes2], 1, [0])
+                states += st2
+                trans += tr2
+                for pi, (txs, i) in enumerate(pf):
+                    shp = [i, 1, len(txs) - i - 1]
+                    for si, sc in enumerate([x for x in scheds2 if x['shape'] == shp]):
+                        jobs.append(dict(id='%s-pf%d-%d' % (pid, pi, si), cfg={}, blocks=shape_history(txs, shp), schedule=sc['schedule'], upgradeAt=0))
+                shapes = shapes + [list(x) for x in shapes2]
+        log('%s: %d schedules from TLC, %d jobs' % (pid, len(scheds), len(jobs)))
+        traces = run_harness_jobs(work, harness, 'node', jobs)
+        mc_wrapper(work, 'MCNodeTrace', 'NodeTrace', dict(ShapesC='{}', UpC='{}'))
+        write_raw_cfg(os.path.join(work, 'nodetrace.cfg'), ['SPECIFICATION TraceSpec', 'CONSTANTS', '  BlockShapes <- ShapesC', '  MaxCrashes = 1000', '  UpgradeAts <- UpC',
+                                                            'POSTCONDITION TraceAccepted', 'CHECK_DEADLOCK FALSE'])
+        viol, drift, lines = validate_with(work, 'MCNodeTrace.tla', 'nodetrace.cfg', traces)
+        # C17 observations (panics outside restarts) are reported by their own check; restart failures are C10/C19 already
+        extra = {}
+        if pid == 'C19':
+            sviol, sinfo = upgrades_static(work, harness)
+            viol += sviol
+            extra = dict(static=sinfo)
+        jobs_by_id = {j['id']: j for j in jobs}
+        distinct = len({json.dumps([j['schedule'], j['upgradeAt']]) for j in jobs})
+        cov = dict(states=states, transitions=trans, traces_validated_against_impl=len(jobs), trace_events_validated=lines,
+                   samples=[dict(shape=[len(b) for b in jobs[0]['blocks']], schedule=jobs[0]['schedule'], upgradeAt=jobs[0]['upgradeAt'])] if jobs else [],
+                   evaluations=len(jobs), distinct_nontrivial=distinct,
+                   rule='schedules are ALL complete runs of Node.tla for the block shapes %s with at most 2 crashes (enumerated by TLC); distinct = distinct (schedule, upgrade height) pairs executed; '
+                        'each is non-trivial: it contains at least the full ABCI cycle of every block and is compared event by event with a never-stopped twin' % shapes,
+                   exhaustive=True, shapes=shapes, **extra)
+        return conclude(pid, tier, seed, t0, viol, drift, cov,
+                        ['crash = the application object is dropped without Commit and re-created on the same database (MemDB); torn writes inside Commit are out of scope',
+                         'only the pinned binary exists: the old binary halting at the upgrade height is emulated by writing upgrade-info.json' if pid == 'C19' else 'the twin runs in the same process',
+                         'block histories are TLC-simulated Panacea behaviours (mixed custom modules)'], jobs_by_id,
+                        sig_of=lambda v: 'schedule')
+    finally:
+        shutil.rmtree(work, ignore_errors=True)
+
+
+NO_STORE_THEN = {'vesting', 'genutil', 'crisis'}   # modules of the first descriptor's fromVM that had no KV store at that SDK version
+STORE_NAME = {'auth': 'acc'}
+
+
+def upgrades_static(work, harness):
+    p = subprocess.run([harness, 'upgrades'], capture_output=True, text=True, env=dict(os.environ, VERIF_REPO=vlib.REPO))
+    if p.returncode != 0:
+        raise Inconclusive('harness upgrades failed: ' + p.stderr[-2000:])
+    info = json.loads(p.stdout.strip().splitlines()[-1])
+    desc = info['descriptors']
+    baseline = {STORE_NAME.get(m, m) for m in info['firstDescriptorFromVM'] if m not in NO_STORE_THEN} | set(desc[0]['deleted'] if desc else [])
+    dseq = '<<' + ', '.join('[name |-> "%s", added |-> %s, deleted |-> %s]' % (d['name'], tla_strset(d['added']), tla_strset(d['deleted'])) for d in desc) + '>>'
+    mc_wrapper(work, 'MCUpgrades', 'Upgrades', dict(DescC=dseq, MountedC=tla_strset(info['mounted']), BaselineC=tla_strset(baseline)))
+    viol = []
+    stats = dict(descriptors=[d['name'] for d in desc], mounted=len(info['mounted']), baseline=sorted(baseline), renamed=sum(d['renamed'] for d in desc))
+    for inv, prop in (('WellFormed', None), ('FinalIsMounted', None), ('NeverDeleteMounted', None), (None, 'StepOk')):
+        lines = ['SPECIFICATION Spec', 'CONSTANTS', '  Descriptors <- DescC', '  Mounted <- MountedC', '  Baseline <- BaselineC']
+        if inv:
+            lines.append('INVARIANTS ' + inv)
+        if prop:
+            lines.append('PROPERTIES ' + prop)
+        lines.append('CHECK_DEADLOCK FALSE')
+        write_raw_cfg(os.path.join(work, 'upg.cfg'), lines)
+        rc, out, wall = vlib.run_tlc(work, 'MCUpgrades.tla', 'upg.cfg', workers=1, heap='1g', timeout=300)
+        name = inv or prop
+        if vlib.tlc_failed(out) is None:
+            stats[name] = 'holds'
+        elif 'is violated' in out or 'is equal to FALSE' in out:
+            # the constants ARE the code: a violated invariant here is a statement about the code's descriptors
+            stats[name] = 'violated'
+            viol.append(dict(kind='VIOLATION', id='C19', run='static:' + name, step=0, line=0, file=''))
+        else:
+            raise Inconclusive('Upgrades.tla: ' + out[-2000:])
+    return viol, stats
+
+
+CHECKS = {
+    'C10': lambda tier, seed: node_check('C10', tier, seed),
+    'C19': lambda tier, seed: node_check('C19', tier, seed),
+}
 
 
 def run(pid, tier, seed):
@@ -7,4 +325,32 @@ def run(pid, tier, seed):
 
 
 def replay(pid, payload):
-    raise NotImplementedError
+    """re-executes a stored job of a node-level check against the current tree"""
+    work = vlib.scratch('replay')
+    try:
+        vlib.copy_spec(work)
+        harness = vlib.build_harness()
+        job = payload.get('job')
+        if pid in ('C10', 'C19') and job:
+            traces = run_harness_jobs(work, harness, 'node', [job], nproc=1)
+            mc_wrapper(work, 'MCNodeTrace', 'NodeTrace', dict(ShapesC='{}', UpC='{}'))
+            write_raw_cfg(os.path.join(work, 'nodetrace.cfg'), ['SPECIFICATION TraceSpec', 'CONSTANTS', '  BlockShapes <- ShapesC', '  MaxCrashes = 1000', '  UpgradeAts <- UpC',
+                                                                'POSTCONDITION TraceAccepted', 'CHECK_DEADLOCK FALSE'])
+            viol, drift, lines = validate_with(work, 'MCNodeTrace.tla', 'nodetrace.cfg', traces)
+            if pid == 'C19':
+                sviol, _ = upgrades_static(work, harness)
+                viol += sviol
+            if [v for v in viol if v['id'] == pid]:
+                print('VIOLATION property=%s replay=(given)' % pid)
+                return 1
+            print('OK replay: property %s holds on the current tree' % pid)
+            return 0
+        if pid in REPLAYERS:
+            return REPLAYERS[pid](payload, work, harness)
+        print('INCONCLUSIVE nothing to replay')
+        return 2
+    finally:
+        shutil.rmtree(work, ignore_errors=True)
+
+
+REPLAYERS = {}
